@@ -49,7 +49,8 @@ def main(argv=None):
     prop = importlib.import_module('props.' + pid)
     os.environ['PYVC_FOCUS'] = getattr(prop, 'FOCUS', 'all')
     from pyvc import front
-    evid_dir = os.path.join(HERE, 'evidence')
+    evid_dir = os.environ.get('PYVC_EVIDENCE_DIR') or os.path.join(
+        HERE, 'evidence')
     os.makedirs(evid_dir, exist_ok=True)
     rep_dir = os.path.join(HERE, 'replays', pid)
     os.makedirs(rep_dir, exist_ok=True)
